@@ -335,5 +335,107 @@ def _runtime_problems(rel):
     return out
 
 
+# ----------------------------------------------------------------------------- static tie of the two-context model (PipelineCtx)
+
+SLIDING = "nemoguardrails/colang/v1_0/runtime/sliding.py"
+FLOWS1 = "nemoguardrails/colang/v1_0/runtime/flows.py"
+
+
+def _stmts(body):
+    return [ast.unparse(s) for s in body]
+
+
+def _two_context_problems():
+    """`Models/PipelineCtx.lean` mirrors four small pieces of Python statement by statement.  Each is pinned here by the
+    unparsed form of the statements the model relies on (formatting-insensitive; an edit of one of them must be re-modelled):
+      slideSet      <- sliding.py::slide, branch `p_type == "set"`: context updated AND update recorded, unconditionally
+      actCtx        <- flows.py::compute_context: every ContextUpdate of the history is applied, in order
+      visOf/cutUser <- flows.py::apply_history_alterations: `hide_prev_turn` cuts back to the last UtteranceUserActionFinished
+      (emission)    <- flows.py::compute_next_steps: replays the altered history; recorded updates become ONE ContextUpdate step
+      actionResult  <- runtime.py::_process_start_action: actions get compute_context(events); a result is published iff it
+                       differs from the context of the visible history"""
+    out = []
+
+    def need(cond, msg):
+        if not cond:
+            out.append("two-context model: " + msg)
+
+    # --- slide / set
+    try:
+        fn = find_def(parse(SLIDING), "slide")
+        branch = [n for n in ast.walk(fn) if isinstance(n, ast.If) and ast.unparse(n.test) == "p_type == 'set'"]
+        need(len(branch) == 1, "sliding.py::slide: the `p_type == \"set\"` branch is gone or duplicated")
+        if len(branch) == 1:
+            body = _stmts(branch[0].body)
+            need("context.update({key_name: value})" in body, "sliding.py::slide/set: `context.update({key_name: value})` is no longer an unconditional statement of the branch")
+            need("state.context_updates.update({key_name: value})" in body,
+                 "sliding.py::slide/set: `state.context_updates.update({key_name: value})` is no longer an unconditional statement of the branch (every `set` must be published as a ContextUpdate: the actions' context only learns it that way)")
+            need(sum(1 for n in ast.walk(branch[0]) if isinstance(n, ast.Attribute) and n.attr == "context_updates") == 1, "sliding.py::slide/set: `state.context_updates` is touched more than once")
+    except TieBroken as e:
+        out.append(f"two-context model: {e}")
+    # --- compute_context
+    try:
+        tree = parse(FLOWS1)
+        fn = find_def(tree, "compute_context")
+        loops = [n for n in fn.body if isinstance(n, ast.For) and ast.unparse(n.iter) == "history"]
+        need(len(loops) == 1, "flows.py::compute_context: the single `for event in history` loop is gone")
+        if len(loops) == 1:
+            first = loops[0].body[0]
+            need(isinstance(first, ast.If) and ast.unparse(first.test) == "event['type'] == 'ContextUpdate'" and _stmts(first.body) == ["context.update(event['data'])"] and not first.orelse,
+                 "flows.py::compute_context: `if event[\"type\"] == \"ContextUpdate\": context.update(event[\"data\"])` is no longer the first, unconditional step of the loop")
+        need(not any(isinstance(n, ast.Call) and ast.unparse(n.func) == "apply_history_alterations" for n in ast.walk(fn)), "flows.py::compute_context now applies history alterations itself (the model's action side reads ALL events)")
+        # --- apply_history_alterations
+        fn = find_def(tree, "apply_history_alterations")
+        hides = [n for n in ast.walk(fn) if isinstance(n, ast.If) and ast.unparse(n.test) == "event['type'] == 'hide_prev_turn'"]
+        need(len(hides) == 1, "flows.py::apply_history_alterations: the `hide_prev_turn` branch is gone")
+        if len(hides) == 1:
+            h = hides[0]
+            body = _stmts(h.body)
+            need(body[-1:] == ["actual_history = actual_history[0:end]"], "flows.py::apply_history_alterations: the cut is no longer `actual_history = actual_history[0:end]`")
+            need(body[:1] == ["end = len(actual_history) - 1"], "flows.py::apply_history_alterations: the search no longer starts at the last event")
+            whiles = [n for n in h.body if isinstance(n, ast.While)]
+            need(len(whiles) == 1 and ast.unparse(whiles[0].test) == "end > 0 and actual_history[end]['type'] != 'UtteranceUserActionFinished'" and _stmts(whiles[0].body) == ["end -= 1"],
+                 "flows.py::apply_history_alterations: the backward search for the last `UtteranceUserActionFinished` changed")
+            need(_stmts(h.orelse) == ["actual_history.append(event)"], "flows.py::apply_history_alterations: other events are no longer kept as they are")
+        # --- compute_next_steps
+        fn = find_def(tree, "compute_next_steps")
+        top = _stmts(fn.body)
+        need("actual_history = apply_history_alterations(history)" in top, "flows.py::compute_next_steps no longer replays `apply_history_alterations(history)`")
+        emits = [n for n in fn.body if isinstance(n, ast.If) and ast.unparse(n.test) == "state.context_updates"]
+        need(len(emits) == 1 and _stmts(emits[0].body) == ["next_steps.append(new_event_dict('ContextUpdate', data=state.context_updates))"] and not emits[0].orelse,
+             "flows.py::compute_next_steps: the recorded context updates are no longer published as they are (`if state.context_updates: next_steps.append(new_event_dict(\"ContextUpdate\", data=state.context_updates))`)")
+        need(sum(1 for n in ast.walk(fn) if isinstance(n, ast.Constant) and n.value == "ContextUpdate") == 1, "flows.py::compute_next_steps builds ContextUpdate events in more than one place")
+    except TieBroken as e:
+        out.append(f"two-context model: {e}")
+    # --- _process_start_action
+    try:
+        fns = [n for n in ast.walk(parse(RT1)) if isinstance(n, (ast.FunctionDef, ast.AsyncFunctionDef)) and n.name == "_process_start_action"]
+        if len(fns) != 1:
+            raise TieBroken(f"{RT1}: _process_start_action not found")
+        fn = fns[0]
+        src = [ast.unparse(n) for n in ast.walk(fn) if isinstance(n, ast.stmt)]
+        need("context = compute_context(events)" in src, "runtime.py::_process_start_action: actions no longer get `compute_context(events)`")
+        need("kwargs['context'] = context" in src, "runtime.py::_process_start_action: the `context` argument of an action is no longer that context")
+        need("visible_context = compute_context(apply_history_alterations(events))" in src, "runtime.py::_process_start_action: results are no longer compared with the context of the visible history")
+        need("next_steps.append(new_event_dict('ContextUpdate', data=context_updates))" in src, "runtime.py::_process_start_action: a changed result is no longer published as a ContextUpdate")
+        loops = [n for n in ast.walk(fn) if isinstance(n, ast.For) and ast.unparse(n.iter) == "context_updates.items()"]
+        need(len(loops) == 1 and _stmts(loops[0].body) == ["if visible_context.get(k) != v:\n    changes = True\n    break"],
+             "runtime.py::_process_start_action: the change test is no longer `visible_context.get(k) != v` for some key")
+        # between `flows.py::compute_next_steps` and the event list nothing edits the steps: the wrapper only marks system actions
+        wr = [n for n in ast.walk(parse(RT1)) if isinstance(n, (ast.FunctionDef, ast.AsyncFunctionDef)) and n.name == "_compute_next_steps"]
+        need(len(wr) == 1, "runtime.py::_compute_next_steps not found")
+        if len(wr) == 1:
+            w = wr[0]
+            need(not any(isinstance(n, ast.Constant) and n.value == "ContextUpdate" for n in ast.walk(w)) and not any(isinstance(n, (ast.Delete,)) for n in ast.walk(w))
+                 and not any(isinstance(n, ast.Call) and isinstance(n.func, ast.Attribute) and n.func.attr in ("pop", "remove", "insert") for n in ast.walk(w)),
+                 "runtime.py::_compute_next_steps now edits the computed steps (ContextUpdate handling / deletion): the updates recorded by `slide` must reach the event list as they are")
+            need([ast.unparse(n) for n in w.body if isinstance(n, ast.Return)] == ["return next_steps"], "runtime.py::_compute_next_steps no longer returns the computed steps")
+        need(any(isinstance(n, ast.If) and ast.unparse(n.test) == "any((e['type'] == 'hide_prev_turn' for e in events))" for n in ast.walk(fn)),
+             "runtime.py::_process_start_action: the visible context is no longer used exactly when the history contains a `hide_prev_turn`")
+    except TieBroken as e:
+        out.append(f"two-context model: {e}")
+    return out
+
+
 def static_tie():
-    return _dispatcher_problems() + _runtime_problems(RT1) + _runtime_problems(RT2)
+    return _dispatcher_problems() + _runtime_problems(RT1) + _runtime_problems(RT2) + _two_context_problems()
